@@ -324,18 +324,42 @@ func buildWorld(t *testing.T) (*world, error) {
 
 		switch u.Name {
 		case "uexp":
-			// two 1-second tokens: one never used, one used (and cached) while valid
-			a, _, err := logon(f, u.Name, u.Pass, "1s", true)
+			// two short-lived tokens: one never used, one used (and cached)
+			// while valid. The lifetime starts at 3 s and doubles until the
+			// logon handler (which unwraps the fresh token itself) and the
+			// first use succeed, so that a very slow machine cannot make the
+			// set-up fail.
+			mintShort := func(mustUse bool) (string, time.Time, error) {
+				var lastErr error
+				for life := 3; life <= 200; life *= 2 {
+					tk, _, err := logon(f, u.Name, u.Pass, fmt.Sprintf("%ds", life), true)
+					if err != nil {
+						lastErr = err
+						continue
+					}
+					deadline := time.Now().Add(time.Duration(life+1) * time.Second)
+					if !mustUse {
+						return tk, deadline, nil
+					}
+					if s := use(tk); s == 200 {
+						return tk, deadline, nil
+					} else {
+						lastErr = fmt.Errorf("short-lived token refused while fresh: %d", s)
+					}
+				}
+				return "", time.Time{}, fmt.Errorf("cannot mint a short-lived token: %v", lastErr)
+			}
+			a, da, err := mintShort(false)
 			if err != nil {
 				return nil, err
 			}
-			b, _, err := logon(f, u.Name, u.Pass, "1s", true)
+			b, db, err := mintShort(true)
 			if err != nil {
 				return nil, err
 			}
-			expiredAt = time.Now().Add(1500 * time.Millisecond)
-			if s := use(b); s != 200 {
-				wd.notes = append(wd.notes, fmt.Sprintf("1s token refused while fresh: %d", s))
+			expiredAt = da
+			if db.After(expiredAt) {
+				expiredAt = db
 			}
 			wd.tok["expired:0"], wd.tok["expired:1"] = a, b
 		case "urev":
@@ -696,6 +720,16 @@ func declared(d *Decl) requirement {
 	return rq
 }
 
+// sigClass coarsens the credential class for signatures: everything that is
+// not a token is one region ("no valid credential in header or payload"),
+// each way a token can be invalid is its own.
+func sigClass(class string) string {
+	if strings.HasPrefix(class, "token") {
+		return class
+	}
+	return "no-token"
+}
+
 func b2i(b bool) int {
 	if b {
 		return 1
@@ -910,7 +944,7 @@ func (wd *world) oracle(c Case) (out vkit.Outcome) {
 		// When the builder left mustAuthenticate=false on a declaration that
 		// requires authentication, that is the root cause whatever the
 		// credential was; otherwise the credential class names the region.
-		sig := "unauthenticated request reached handler: " + where + " cred=" + id.Class
+		sig := "unauthenticated request reached handler: " + where + " cred=" + sigClass(id.Class)
 		if !info.MustAuthenticate && !info.Lightweight {
 			sig = "declaration requires authentication but the built route has mustAuthenticate=false: " + where
 		}
